@@ -61,7 +61,7 @@ def gen_cases(tier, seed):
     blocks = ["4096", "64KB", "1MB", "16MB", "np"]
     for i in range(n):
         driver = ["parblock", "parfile"][i % 2]
-        nseg = r.choice([0, 1, 2, 3, 5, 8, 20, 33, 40, 70, 100] if tier == "thorough" else [0, 1, 2, 3, 5, 8, 33, 40])
+        nseg = r.choice([0, 1, 2, 3, 5, 8, 20, 33, 40, 70, 100] if tier == "thorough" else [0, 1, 2, 3, 5, 8, 33, 40, 70])
         lead, lens = layout(r, nseg)
         trailing = r.choice(["data", "hole", "hole"])
         yield {"driver": driver, "lead": lead, "lens": lens, "trailing": trailing, "nseg": nseg, "block": blocks[i % len(blocks)],
